@@ -575,6 +575,71 @@ class Session:
             cls = pool[op["t"] % len(pool)]
             m = p.new_module(cls)
             return "mod:" + cls.__name__
+        if k == "modkw":
+            # construct with keyword arguments (controllers, options, common fields), then
+            # attach the configured free module through attach_module or +=
+            pool = SIMPLE_TYPES
+            cls = pool[op["t"] % len(pool)]
+            probe = cls()
+            kw = {}
+            names = [n for n, c in probe.controllers.items() if c.attached(probe) and not isinstance(c.value_type, DependentRange)]
+            for sel, v in op.get("kw", ()):
+                if names:
+                    n = names[sel % len(names)]
+                    val = controller_domain_value(probe, n, v)
+                    if val is not None:
+                        kw[n] = val
+            for j, (sel, v) in enumerate(op.get("okw", ())):
+                onames = list(probe.options)
+                if onames:
+                    n = onames[sel % len(onames)]
+                    o = probe.options[n]
+                    kw[n] = bool(v & 1) if o.size == 1 else v % (1 << o.size)
+            c = op.get("common", 0)
+            if c & 1:
+                kw["name"] = text_from(c >> 8, 30)
+            if c & 2:
+                kw["x"] = pick_i32(c >> 9)
+                kw["y"] = pick_i32(c >> 13)
+            if c & 4:
+                kw["layer"] = (c >> 5) % 8
+            if c & 8:
+                kw["color"] = ((c >> 8) & 0xFF, (c >> 16) & 0xFF, (c >> 24) & 0xFF)
+            if c & 16:
+                kw["finetune"] = pick_int(c >> 7, -256, 256)
+                kw["relative_note"] = pick_int(c >> 11, -128, 128)
+            m = cls(**kw)
+            if c & 32:
+                p += m
+            else:
+                p.attach_module(m)
+            return "modkw:" + cls.__name__
+        if k == "clone_mod":
+            ms = [m for m in self.mods() if type(m).__name__ != "Output"]
+            if not ms:
+                return "skip"
+            src = ms[op["m"] % len(ms)]
+            c = src.clone()
+            p.attach_module(c)
+            return "clone_mod:" + type(src).__name__
+        if k == "macro":
+            ms = [m for m in self.mods() if type(m).__name__ not in ("Output", "MultiCtl") and m.controllers]
+            if not ms:
+                return "skip"
+            pairs = []
+            used = set()
+            for sel, csel in op.get("pairs", ())[:4]:
+                m = ms[sel % len(ms)]
+                if m.index in used:
+                    continue
+                used.add(m.index)
+                names = [n for n, c in m.controllers.items() if c.attached(m)]
+                if names:
+                    pairs.append((m, names[csel % len(names)]))
+            if not pairs:
+                return "skip"
+            M.MultiCtl.macro(p, *pairs)
+            return "macro"
         if k == "set":
             ms = self.mods()
             m = ms[op["m"] % len(ms)]
@@ -660,6 +725,13 @@ def gen_op(r, weights=None, depth=0):
     big = r.getrandbits(62)
     if k == "mod":
         return {"k": "mod", "t": r.randrange(1000)}
+    if k == "modkw":
+        return {"k": "modkw", "t": r.randrange(1000), "kw": [[r.randrange(100), r.getrandbits(40)] for _ in range(r.randint(0, 3))],
+                "okw": [[r.randrange(100), r.getrandbits(20)] for _ in range(r.randint(0, 2))], "common": r.getrandbits(40)}
+    if k == "clone_mod":
+        return {"k": "clone_mod", "m": r.randrange(1000)}
+    if k == "macro":
+        return {"k": "macro", "pairs": [[r.randrange(100), r.randrange(100)] for _ in range(r.randint(1, 4))]}
     if k == "set":
         return {"k": "set", "m": r.randrange(1000), "s": r.randrange(100000), "v": big}
     if k == "pset":
@@ -701,7 +773,7 @@ def gen_link_op(r, foreign_p=0.0):
     return op
 
 
-DEFAULT_WEIGHTS = {"mod": 3, "set": 10, "pset": 2, "pat": 1.5, "tset": 1, "cell": 3, "link": 4, "embed": 1.5}
+DEFAULT_WEIGHTS = {"mod": 3, "set": 10, "pset": 2, "pat": 1.5, "tset": 1, "cell": 3, "link": 4, "embed": 1.5, "modkw": 1.2, "clone_mod": 0.8}
 
 
 def gen_ops(r, n, weights=None, first_mods=3):
